@@ -14,7 +14,7 @@ def gainRegs (s : State) (seg : Nat) : State :=
 /-- `write_gain`: the CPU's per-segment copies -/
 def gainCopies (s : State) (seg : Nat) : State :=
   { s with stmCycle := setSel s.stmCycle seg 1, stmRep := setSel s.stmRep seg 0xFFFF,
-           stmDiv := setSel s.stmDiv seg 0xFFFF }
+           stmDiv := setSel s.stmDiv seg 0xFFFF, stmMode := setSel s.stmMode seg STM_MODE_GAIN }
 @[simp] theorem gainCopies_ack (s : State) (seg : Nat) : (gainCopies s seg).ack = s.ack := rfl
 @[simp] theorem gainCopies_lastMsgId (s : State) (seg : Nat) : (gainCopies s seg).lastMsgId = s.lastMsgId := rfl
 @[simp] theorem gainCopies_rxData (s : State) (seg : Nat) : (gainCopies s seg).rxData = s.rxData := rfl
@@ -24,7 +24,7 @@ def gainCopies (s : State) (seg : Nat) : State :=
 @[simp] theorem gainCopies_synchronized (s : State) (seg : Nat) : (gainCopies s seg).synchronized = s.synchronized := rfl
 @[simp] theorem gainCopies_modCycle (s : State) (seg : Nat) : (gainCopies s seg).modCycle = s.modCycle := rfl
 @[simp] theorem gainCopies_stmWrite (s : State) (seg : Nat) : (gainCopies s seg).stmWrite = s.stmWrite := rfl
-@[simp] theorem gainCopies_stmMode (s : State) (seg : Nat) : (gainCopies s seg).stmMode = s.stmMode := rfl
+@[simp] theorem gainCopies_stmMode (s : State) (seg : Nat) : (gainCopies s seg).stmMode = setSel s.stmMode seg STM_MODE_GAIN := rfl
 @[simp] theorem gainCopies_modDiv (s : State) (seg : Nat) : (gainCopies s seg).modDiv = s.modDiv := rfl
 @[simp] theorem gainCopies_modRep (s : State) (seg : Nat) : (gainCopies s seg).modRep = s.modRep := rfl
 @[simp] theorem gainCopies_stmSegment (s : State) (seg : Nat) : (gainCopies s seg).stmSegment = s.stmSegment := rfl
@@ -313,7 +313,10 @@ theorem gain_roundtrip_noupd (s : State) (t : Tx) (hWF : WF s) (ht : TxOK t) (hf
     (seg : Nat) (hseg : seg ≤ 1) (drives : Array Nat) (hdr : ∀ i, rd drives i < 65536) :
     ∃ t' s', Sends (.gain seg none drives) s t t' s' ∧ WF s' ∧ TxOK t' ∧ Fresh s' t' ∧
       GainHeld s s' seg drives ∧ s'.stmSwap = s.stmSwap ∧ Obs.reqStmSeg s' = Obs.reqStmSeg s ∧
-      Obs.stmTransition s' = Obs.stmTransition s ∧ s'.stmSegment = s.stmSegment ∧ s'.stmMode = s.stmMode := by
+      Obs.stmTransition s' = Obs.stmTransition s ∧ s'.stmSegment = s.stmSegment ∧
+      s'.stmMode = setSel s.stmMode seg STM_MODE_GAIN ∧ s'.stmCycle = setSel s.stmCycle seg 1 ∧
+      s'.stmDiv = setSel s.stmDiv seg 0xFFFF ∧ s'.modDiv = s.modDiv ∧ s'.modSegment = s.modSegment ∧
+      s'.strict = s.strict ∧ s'.minDivI = s.minDivI ∧ s'.minDivP = s.minDivP := by
   have ht' : t.payload.size = 622 := ht
   have hnt := hWF.numTr
   obtain ⟨p0, p1, p2, pw, psz⟩ := gain_payload t.payload seg 0 drives s.numTr ht' hnt (by omega) (by omega)
@@ -337,7 +340,10 @@ theorem gain_roundtrip_noupd (s : State) (t : Tx) (hWF : WF s) (ht : TxOK t) (hf
       rw [reg_fin _ _ _ h0, reg_gainBody _ hW.ctl _ hseg]
       rw [if_neg (by omega), if_neg (by omega), if_neg (by omega), if_neg (by omega), if_neg (by omega), if_neg (by omega)]
       rfl
-    refine ⟨by simp [fin, gainBody, gainRegs], ?_, ?_, by simp [fin, gainBody, gainRegs], by simp [fin, gainBody, gainRegs]⟩
+    refine ⟨by simp [fin, gainBody, gainRegs], ?_, ?_, by simp [fin, gainBody, gainRegs], by simp [fin, gainBody, gainRegs],
+      by simp [fin, gainBody, gainRegs], by simp [fin, gainBody, gainRegs], by simp [fin, gainBody, gainRegs],
+      by simp [fin, gainBody, gainRegs], by simp [fin, gainBody, gainRegs], by simp [fin, gainBody, gainRegs],
+      by simp [fin, gainBody, gainRegs]⟩
     · unfold Obs.reqStmSeg segReg; simp only [hr _ (show ADDR_STM_REQ_RD_SEGMENT ≠ 0 by decide) (by decide)]
     · unfold Obs.stmTransition reg64
       simp only [hr ADDR_STM_TRANSITION_MODE (by decide) (by decide),
@@ -350,7 +356,10 @@ theorem gain_roundtrip_upd (s : State) (t : Tx) (hWF : WF s) (ht : TxOK t) (hf :
     ∃ t' s', Sends (.gain seg (some (Drv.TRANSITION_MODE_IMMEDIATE, v)) drives) s t t' s' ∧ WF s' ∧ TxOK t' ∧ Fresh s' t' ∧
       GainHeld s s' seg drives ∧ Obs.reqStmSeg s' = .ok seg ∧ Obs.stmTransition s' = .ok .syncIdx ∧
       Obs.currentStmSeg s' = seg ∧ s'.stmSegment = seg ∧
-      SwapSet s.stmSwap s'.stmSwap s.dcSysTime 0xFFFF 0xFFFF 1 seg .syncIdx ∧ s'.stmMode = s.stmMode := by
+      SwapSet s.stmSwap s'.stmSwap s.dcSysTime 0xFFFF 0xFFFF 1 seg .syncIdx ∧
+      s'.stmMode = setSel s.stmMode seg STM_MODE_GAIN ∧ s'.stmCycle = setSel s.stmCycle seg 1 ∧
+      s'.stmDiv = setSel s.stmDiv seg 0xFFFF ∧ s'.modDiv = s.modDiv ∧ s'.modSegment = s.modSegment ∧
+      s'.strict = s.strict ∧ s'.minDivI = s.minDivI ∧ s'.minDivP = s.minDivP := by
   have ht' : t.payload.size = 622 := ht
   have hnt := hWF.numTr
   obtain ⟨p0, p1, p2, pw, psz⟩ := gain_payload t.payload seg 1 drives s.numTr ht' hnt (by omega) (by omega)
@@ -392,7 +401,11 @@ theorem gain_roundtrip_upd (s : State) (t : Tx) (hWF : WF s) (ht : TxOK t) (hf :
         s.dcSysTime := by simp [gainBody, gainRegs]
     rw [e4, e5] at hset
     exact hset
-  refine ⟨_, hh, hW1, by simp [gainReqPost, gainBody, gainRegs], ⟨?_, ?_, ?_, ?_, ?_, ?_, by simp [fin, gainReqPost, gainBody, gainRegs]⟩⟩
+  refine ⟨_, hh, hW1, by simp [gainReqPost, gainBody, gainRegs], ⟨?_, ?_, ?_, ?_, ?_, ?_, by simp [fin, gainReqPost, gainBody, gainRegs],
+    by simp [fin, gainReqPost, gainBody, gainRegs], by simp [fin, gainReqPost, gainBody, gainRegs],
+    by simp [fin, gainReqPost, gainBody, gainRegs], by simp [fin, gainReqPost, gainBody, gainRegs],
+    by simp [fin, gainReqPost, gainBody, gainRegs], by simp [fin, gainReqPost, gainBody, gainRegs],
+    by simp [fin, gainReqPost, gainBody, gainRegs]⟩⟩
   · exact ⟨hG.drives, hG.cycle, hG.gainMode, hG.div, hG.rep, hG.otherMem, hG.otherRegs, hG.modMem, hG.numTr⟩
   · unfold Obs.reqStmSeg segReg
     simp only [reg_fin _ _ _ (show ADDR_STM_REQ_RD_SEGMENT ≠ 0 by decide), hregs _ (show ADDR_STM_REQ_RD_SEGMENT ≠ 0 by decide)]
@@ -409,5 +422,31 @@ theorem gain_roundtrip_upd (s : State) (t : Tx) (hWF : WF s) (ht : TxOK t) (hf :
         (wordsAt d 4 s.numTr)) seg w) (nextId t)).stmSwap = w := by simp [fin, gainReqPost]
     rw [this]; exact hset'
 
+
+/-- the CPU-side copies after a Gain: the segment is recorded as a one-pattern gain segment with
+division 0xFFFF; the other segment's copies and the silencer guard inputs are untouched -/
+structure GainCpu (s s' : State) (seg : Nat) : Prop where
+  mode : sel s'.stmMode seg = STM_MODE_GAIN
+  modeOther : sel s'.stmMode (1 - seg) = sel s.stmMode (1 - seg)
+  cycle : sel s'.stmCycle seg = 1
+  div : sel s'.stmDiv seg = 0xFFFF
+  modDiv : s'.modDiv = s.modDiv
+  modSegment : s'.modSegment = s.modSegment
+  strict : s'.strict = s.strict
+  minDivI : s'.minDivI = s.minDivI
+  minDivP : s'.minDivP = s.minDivP
+
+theorem sel_setSel_same (p : Nat × Nat) (seg v : Nat) : sel (setSel p seg v) seg = v := by
+  unfold sel setSel; split <;> simp [*]
+theorem sel_setSel_other (p : Nat × Nat) (seg v : Nat) (hseg : seg ≤ 1) : sel (setSel p seg v) (1 - seg) = sel p (1 - seg) := by
+  rcases (show seg = 0 ∨ seg = 1 by omega) with h | h <;> subst h <;> simp [sel, setSel]
+
+theorem GainCpu_of {s s' : State} {seg : Nat} (hseg : seg ≤ 1)
+    (h : s'.stmMode = setSel s.stmMode seg STM_MODE_GAIN ∧ s'.stmCycle = setSel s.stmCycle seg 1 ∧
+      s'.stmDiv = setSel s.stmDiv seg 0xFFFF ∧ s'.modDiv = s.modDiv ∧ s'.modSegment = s.modSegment ∧
+      s'.strict = s.strict ∧ s'.minDivI = s.minDivI ∧ s'.minDivP = s.minDivP) : GainCpu s s' seg := by
+  obtain ⟨h1, h2, h3, h4, h5, h6, h7, h8⟩ := h
+  exact ⟨by rw [h1, sel_setSel_same], by rw [h1, sel_setSel_other _ _ _ hseg], by rw [h2, sel_setSel_same],
+    by rw [h3, sel_setSel_same], h4, h5, h6, h7, h8⟩
 
 end Autd3.Rt
